@@ -204,7 +204,11 @@ func vColumn(name string, typ int64, n int) (interface{}, func(got interface{}) 
 // C29: columns -> fixed-width rows (with or without 8-byte alignment padding) -> columns.
 func VerifC29RoundTrip() {
 	ncols := int(rt.Fix(rt.Int("ncols", 1, 3)))
-	n := int(rt.Fix(rt.Int("nrows", 1, 2)))
+	maxRows := int64(2)
+	if rt.Tier() == 1 {
+		maxRows = 3
+	}
+	n := int(rt.Fix(rt.Int("nrows", 1, maxRows)))
 	align := rt.Fix(rt.Int("align", 0, 1)) == 1
 	cs := NewColumnSeries()
 	ep := make([]int64, n)
@@ -213,6 +217,9 @@ func VerifC29RoundTrip() {
 	}
 	cs.AddColumn("Epoch", ep)
 	names := []string{"A", "Bb", "Ccc"}
+	if rt.Fix(rt.Int("names_differ_only_in_case", 0, 1)) == 1 {
+		names = []string{"Px", "px", "PX"}
+	}
 	var checks []func(interface{}) bool
 	hasBool := false
 	for c := 0; c < ncols; c++ {
